@@ -414,10 +414,7 @@ abbrev OutNote := Int × Rat × Rat × Int
 /-- `pianoroll_to_notearray`: `rows` is `pianoroll.shape[0]`, `timeDiv` any number (the code divides by it
     as given); `none` = ValueError (bad shape) or ZeroDivisionError (`time_div = 0` and at least one note) -/
 def decode (rows : Nat) (cols : List (List Int)) (timeDiv : Rat) : Option (List OutNote) :=
-  let init? : Option Int :=
-    if rows = Gen.C13_DEC_ROWS_FULL then some Gen.C13_DEC_INIT_FULL
-    else if rows = Gen.C13_DEC_ROWS_PIANO then some Gen.C13_DEC_INIT_PIANO else none
-  match init? with
+  match lookup rows Gen.C13_DEC_SHAPES with
   | none => none
   | some init =>
     if timeDiv = 0 ∧ decodeRuns cols ≠ [] then none
